@@ -53,6 +53,12 @@ def campaign(ctx, malleability_only=False):
             if L <= 17 and i in (0, 11, 12, n - 1): scen.append(('pke', L, 'flip', i, 1, o.split(':')[0].lower()))
         o = d.ask(f'PKEDEC 1 {enc} {hx(ctx_ + bytes([0]))}'); note('pke extended ' + o.split(':')[0])
         if o != 'ERR': hits.append((f'PKE ciphertext extended by one byte: {o[:60]}', {'enc': enc, 'ctx': (ctx_ + b"\0").hex()}))
+    # a plaintext of megabytes: structural mutants at block granularity (a chunked / streamed DEM must bind order, count and end)
+    big = 2 * 1024 * 1024 + 4321 if ctx.quick() else 5 * 1024 * 1024 + 77
+    o = d.ask(f'PKEBIG {big}').split(' ')
+    note('pke megabyte-size structural mutants ' + ('rejected' if len(o) >= 4 and o[3] == '-' else 'ACCEPTED'))
+    if len(o) < 4 or o[0] != 'BIG': hits.append((f'PKE encryption of a {big}-byte plaintext: {" ".join(o)[:80]}', {'big': big}))
+    elif o[3] != '-': hits.append((f'PKE ciphertext of a {big}-byte plaintext: ' + o[3].replace('_', ' ')[:300], {'big': big, 'accepted': o[3].replace('_', ' ')}))
     mds = [None, b'', b'm', bytes(15), bytes(range(16)), bytes(17), bytes(rng.randrange(256) for _ in range(300))]
     ads = [None, b'', b'a', b'ad', b'ad2', bytes(40)]
     for md in mds:
@@ -198,6 +204,8 @@ def matrix(ctx, reps=None):
     bad = []; n = 0
     for it in out.split(';'):
         f = it.split(' ')
+        if f[0] == 'MXT':
+            bad.append((f[3], MX_KEYS[int(f[1])], MX_POLS[int(f[2])], 0, 'a secret / plaintext from a ciphertext whose encapsulation was altered', 'nothing')); continue
         if len(f) != 6: continue
         k, e = int(f[1]), int(f[2]); n += 2
         for layer, got in (('PKE', f[4]), ('header', f[5])):
@@ -208,3 +216,18 @@ def matrix(ctx, reps=None):
     if bad or n == 0:
         layer, k, e, rep, got, want = bad[0] if bad else ('-', '-', '-', 0, out[:80], 'a matrix')
         vf.violation(ctx, f'{layer} layer: key "{k}" on a ciphertext for "{e}" (trial {rep}): {got}, expected {want}', {'matrix': True, 'key_policy': k, 'encryption_policy': e, 'layer': layer, 'got': got, 'expected': want, 'violations_total': len(bad)})
+
+
+def big_metadata(ctx):
+    """headers whose metadata is tens of kilobytes to megabytes (around 64 KiB and 1 MiB boundaries): serialization round
+    trip, decryption, authentication data, unauthorized key, and the metadata key differs from the returned secret for
+    every record of a possibly segmented encryption"""
+    sizes = [65507, 65508, 65536, 70000, 131100] + ([1048576 + 5] if ctx.quick() else [1048576 + 5, 3 * 1048576 + 1])
+    d = Demd(); bad = []
+    for n in sizes:
+        o = d.ask(f'HDRBIG {n}').split(' ')
+        if len(o) < 3 or o[0] != 'HB': bad.append((n, ' '.join(o)[:120]))
+        elif o[2] != '-': bad.append((n, o[2].replace('_', ' ')))
+    ctx.evaluations += len(sizes); d.close()
+    ctx.ob('correspondence', f'headers with {len(sizes)} large metadata sizes ({sizes[0]} .. {sizes[-1]} bytes): round trip through the serialized form, authentication, and no record of the encrypted metadata opens under the returned secret', not bad, str(bad[:2])[:400])
+    if bad: vf.violation(ctx, f'encrypted header with {bad[0][0]} bytes of metadata: {bad[0][1][:200]}', {'bigmeta': bad[0][0], 'what': bad[0][1], 'violations_total': len(bad)})
